@@ -113,11 +113,10 @@ class Policy(object):
     def classify(self, f):
         k = f._key
         if k not in self._cache:
-            self._cache[k] = self._classify(f.node)
+            self._cache[k] = self._classify(f.node, f.mod)
         return self._cache[k]
 
-    @staticmethod
-    def _classify(node):
+    def _classify(self, node, mod):
         name = getattr(node, "name", None)
         body = node.body if isinstance(node.body, list) else [ast.Return(value=node.body)]
         has_loop = recursive = False
@@ -136,16 +135,18 @@ class Policy(object):
             return "recursive"
         if has_loop:
             return "loop"
-        if Policy.is_leaf_arith(node):
+        if self.is_leaf_arith(node, mod):
             nst = sum(1 for st in body for n in ast.walk(st) if isinstance(n, ast.stmt))
             branch = any(isinstance(n, (ast.If, ast.IfExp)) for st in body for n in ast.walk(st))
             if branch or nst >= 6:
                 return "leaf"
         return "inline"
 
-    @staticmethod
-    def is_leaf_arith(node):
-        """Pure integer/tuple arithmetic: no raise/assert/attribute/object construction."""
+    _LEAF_BUILTINS = ("pow", "bool", "int", "len", "abs", "divmod", "min", "max")
+
+    def is_leaf_arith(self, node, mod, _seen=()):
+        """Pure integer/tuple arithmetic: no raise/assert/attribute/object construction;
+        calls only to builtin arithmetic or to other leaf-arithmetic package functions."""
         body = node.body if isinstance(node.body, list) else []
         if not body:
             return False
@@ -163,9 +164,62 @@ class Policy(object):
                 elif isinstance(n, ast.Call):
                     if not isinstance(n.func, ast.Name) or n.keywords:
                         return False
+                    tgt = self.world.static_lookup(mod, n.func.id)
+                    if tgt is None:
+                        if n.func.id not in self._LEAF_BUILTINS:
+                            return False
+                    elif isinstance(tgt, FuncV):
+                        if tgt._key in _seen:
+                            return False
+                        if tgt.node is not node and not self.is_leaf_arith(tgt.node, tgt.mod, _seen + (tgt._key,)):
+                            return False
+                    else:
+                        return False      # class instantiation or external call: not pure arithmetic
                 elif not isinstance(n, ok_expr):
                     return False
         return True
+
+    def ret_shape(self, f, _seen=None):
+        """Length n if every return of f is (syntactically) an n-tuple, else None."""
+        k = ("shape", f._key)
+        if k in self._cache:
+            return self._cache[k]
+        _seen = _seen or set()
+        if f._key in _seen:
+            return "self"
+        _seen = _seen | {f._key}
+        node = f.node
+        if isinstance(node, ast.Lambda):
+            return None
+        assigns = {}
+        for n in ast.walk(node):
+            if isinstance(n, ast.Assign) and len(n.targets) == 1 and isinstance(n.targets[0], ast.Name):
+                assigns.setdefault(n.targets[0].id, []).append(n.value)
+
+        def shape(e, depth=0):
+            if depth > 4:
+                return None
+            if isinstance(e, ast.Tuple):
+                return len(e.elts)
+            if isinstance(e, ast.IfExp):
+                a, b = shape(e.body, depth + 1), shape(e.orelse, depth + 1)
+                if a == "self":
+                    return b
+                if b == "self":
+                    return a
+                return a if a == b else None
+            if isinstance(e, ast.Name) and e.id in assigns and len(assigns[e.id]) == 1:
+                return shape(assigns[e.id][0], depth + 1)
+            if isinstance(e, ast.Call) and isinstance(e.func, ast.Name):
+                v = self.world.static_lookup(f.mod, e.func.id)
+                if isinstance(v, FuncV):
+                    return self.ret_shape(v, _seen)
+            return None
+        shapes = [shape(n.value) for n in ast.walk(node) if isinstance(n, ast.Return) and n.value is not None]
+        real = {x for x in shapes if x != "self"}
+        r = real.pop() if len(real) == 1 and None not in shapes and isinstance(next(iter(real)), int) else None
+        self._cache[k] = r
+        return r
 
     def decide(self, f, args):
         if f.qual in self.force_inline:
@@ -202,6 +256,7 @@ class Ev(object):
         self.world = world
         self.policy = policy or Policy(world)
         self.fuel = fuel
+        self.fuel0 = fuel
         self.maxpaths = maxpaths
         self.loop_mode = loop_mode    # 'error' | 'once'
         self.raised = []              # [(State, exc term, site)]
@@ -558,6 +613,17 @@ class Ev(object):
         isand = isinstance(n.op, ast.And)
         outs = []
         site = self.site(n, env)
+        if len(n.values) == 2 and isinstance(n.values[1], ast.Constant) and not isinstance(n.values[1].value, bool):
+            # `x or 1` / `x and 0` as a *value*: the second operand has no effect, no need to fork
+            res = []
+            for s1, v in self.expr(n.values[0], env, st):
+                t = self.truth(v)
+                c = Const(n.values[1].value)
+                if t is None:
+                    res.append((s1, App("Or" if not isand else "And", (v, c))))
+                else:
+                    res.append((s1, c if (t == isand) else v))
+            return res
 
         def go(i, s1):
             for s2, v in self.expr(n.values[i], env, s1):
@@ -922,7 +988,11 @@ class Ev(object):
             raise AnalysisError("call depth budget exceeded at %s" % f.qual)
         if mode != "inline":
             st.log.append(("opaque-call", f, ordered, site))
-            return [Outcome("return", App("fn:" + f.qual, ordered), st)]
+            call = App("fn:" + f.qual, ordered)
+            n = self.policy.ret_shape(f)
+            if n:
+                call = TupleV([App("proj", (call, Const(i))) for i in range(n)], "tuple")
+            return [Outcome("return", call, st)]
         env = {"locals": loc, "mod": f.mod, "closure": f.closure, "func": f, "fname": f.qual,
                "params": tuple(order)}
         if order and f.owner is not None:
@@ -991,9 +1061,15 @@ class Ev(object):
         return [Path(st, "normal", env)]
 
     def s_Return(self, n, env, st):
+        site = self.site(n, env)
         if n.value is None:
+            st.log.append(("return", site))
             return [Path(st, "return", NONE)]
-        return [Path(s, "return", v) for s, v in self.expr(n.value, self._cp(env), st)]
+        out = []
+        for s, v in self.expr(n.value, self._cp(env), st):
+            s.log.append(("return", site))
+            out.append(Path(s, "return", v))
+        return out
 
     def s_Raise(self, n, env, st):
         site = self.site(n, env)
@@ -1396,6 +1472,7 @@ class Ev(object):
         """Evaluate callable f on args from state st -> [Outcome] incl. raise outcomes."""
         if st is None:
             st = self.import_all().fork()
+        self.fuel = self.fuel0          # budget per entry point
         mark = len(self.raised)
         outs = self.call(f, tuple(args), tuple(kw), st, site)
         res = list(outs)
@@ -1407,6 +1484,7 @@ class Ev(object):
     def run_method(self, obj, name, args=(), kw=(), st=None):
         if st is None:
             raise AnalysisError("run_method needs the state holding the object")
+        self.fuel = self.fuel0          # budget per entry point
         mark = len(self.raised)
         got = self.getattr(obj, name, st, ("<rule>", 0, name))
         res = []
